@@ -40,6 +40,7 @@ func (m *Mutex) Lock() {
 		}
 		m.held = true
 		m.owner = s.Self()
+		s.LockAcquired()
 		return
 	}
 	m.mu.Lock()
@@ -56,6 +57,7 @@ func (m *Mutex) TryLock() bool {
 		}
 		m.held = true
 		m.owner = s.Self()
+		s.LockAcquired()
 		return true
 	}
 	return m.mu.TryLock()
@@ -70,6 +72,7 @@ func (m *Mutex) Unlock() {
 			panic("vsync: unlock of unlocked mutex")
 		}
 		m.held = false
+		s.LockReleased()
 		return
 	}
 	m.mu.Unlock()
@@ -100,6 +103,7 @@ func (m *RWMutex) Lock() {
 		}
 		m.pendingW--
 		m.writer = true
+		s.LockAcquired()
 		return
 	}
 	m.mu.Lock()
@@ -114,6 +118,7 @@ func (m *RWMutex) Unlock() {
 			panic("vsync: unlock of unlocked RWMutex")
 		}
 		m.writer = false
+		s.LockReleased()
 		return
 	}
 	m.mu.Unlock()
@@ -129,6 +134,7 @@ func (m *RWMutex) RLock() {
 			return
 		}
 		m.readers++
+		s.LockAcquired()
 		return
 	}
 	m.mu.RLock()
@@ -143,6 +149,7 @@ func (m *RWMutex) RUnlock() {
 			panic("vsync: RUnlock of unlocked RWMutex")
 		}
 		m.readers--
+		s.LockReleased()
 		return
 	}
 	m.mu.RUnlock()
